@@ -72,6 +72,11 @@ def build(ld, kind, n, keyed, tmp, shape='dict'):
             ds = ld.core.CacheDataset(ld.new(container), immutable_warranty='copy')
         elif kind == 'memcache_copy_shared':
             ds = ld.core.CacheDataset(ld.core.DictDataset(container) if keyed else ld.core.ListDataset(container), immutable_warranty='copy')
+        elif kind == 'memcache_shared_pct':
+            # memory guard spelled in percent, with plenty of memory (psutil is an oracle during this history: 2000 bytes in total,
+            # 1500 available): the cache must store - and thereby isolate - every example
+            up = ld.core.DictDataset(container) if keyed else ld.core.ListDataset(container)
+            ds = up.cache(keep_mem_free='50%') if n % 2 else ld.core.CacheDataset(up, ' 25 %')
         elif kind == 'memcache_shared':
             # the upstream hands out SHARED objects: the cache is what provides the isolation
             ds = (ld.core.DictDataset(container) if keyed else ld.core.ListDataset(container)).cache()
@@ -82,6 +87,20 @@ def build(ld, kind, n, keyed, tmp, shape='dict'):
 
 
 def run_history(ld, kind, n, keyed, ops, tmp, shape='dict'):
+    import psutil
+
+    class Mem:
+        total, available = 2000, 1500
+    old_vm = psutil.virtual_memory
+    if kind == 'memcache_shared_pct':
+        psutil.virtual_memory = lambda: Mem
+    try:
+        return _run_history(ld, kind, n, keyed, ops, tmp, shape)
+    finally:
+        psutil.virtual_memory = old_vm
+
+
+def _run_history(ld, kind, n, keyed, ops, tmp, shape='dict'):
     ds, originals, keys = build(ld, kind, n, keyed, tmp, shape)
     handles = []
     outs = []
@@ -194,7 +213,7 @@ def run(tier):
     r = common.rng_for('C09')
     big = tier != 'quick'
     tmp = tempfile.mkdtemp(prefix='c09_')
-    kinds = ['pickle', 'copy', 'wu', 'memcache', 'memcache_map', 'diskcache', 'memcache_shared', 'diskcache_shared', 'memcache_copy', 'memcache_copy_shared', 'jsonfile']
+    kinds = ['pickle', 'copy', 'wu', 'memcache', 'memcache_map', 'diskcache', 'memcache_shared', 'diskcache_shared', 'memcache_copy', 'memcache_copy_shared', 'jsonfile', 'memcache_shared_pct']
     cases, lcases, lmeta, meta, failures = [], [], [], [], []
     for ci in range(5000 if big else 500):
         common.tick()
@@ -228,7 +247,7 @@ def run(tier):
                 failures.append(dict(kind='history', summary=f'{kind} storage ({"dict" if keyed else "list"}-backed, {shape} examples, n={n}): after {ops} a read by path {op[1]!r} of example {op[2]} returned content {o}',
                                      config=dict(kind=kind, n=n, keyed=keyed, shape=shape, ops=[list(x) for x in ops])))
                 break
-        if kind.endswith('_shared'):
+        if kind.endswith('_shared') or kind == 'memcache_shared_pct':
             lcases.append(coq_lcase(n, ops, outs))
             lmeta.append((kind, n, keyed, ops, outs))
         else:
